@@ -14,12 +14,13 @@ VARIABLE hist
 svars == <<vars, hist>>
 
 St == [qin |-> qin, pbuf |-> pbuf, qout |-> qout, obuf |-> obuf, qint |-> qint,
-       delivered |-> delivered, applied |-> [r \in 1..R |-> applied[r]], cphase |-> cphase]
+       delivered |-> delivered, applied |-> [r \in 1..R |-> applied[r]], cphase |-> cphase, perr |-> perr]
 Rec(a, w) == hist' = Append(hist, [a |-> a, w |-> w, st |-> St'])
 
 SimInit == Init /\ hist = <<>>
 SimNext == \/ CPeekYield /\ Rec("CPeekYield", 0)
            \/ CPeekEnd /\ Rec("CPeekEnd", 0)
+           \/ CPeekFail /\ Rec("CPeekFail", 0)
            \/ CStart /\ Rec("CStart", 0)
            \/ CGet /\ Rec("CGet", 0)
            \/ CJoinProd /\ Rec("CJoinProd", 0)
@@ -38,8 +39,8 @@ SimNext == \/ CPeekYield /\ Rec("CPeekYield", 0)
 SimSpec == SimInit /\ [][SimNext]_svars
 
 \* the safety properties of Parallelize hold along every scripted behaviour as well
-SimSafe == ExactlyOnce /\ AtMostOnce /\ AppliedBeforeDelivered /\ Quiescent
+SimSafe == ExactlyOnce /\ AtMostOnce /\ AppliedBeforeDelivered /\ Quiescent /\ UpstreamFailureSurfaces
 
 \* one line per complete behaviour
-Export == (cphase = "done") => PrintT(<<"CASE", ToJson([r |-> R, n |-> N, sel |-> Sel, fail |-> Fail, script |-> hist])>>)
+Export == (cphase \in {"done", "failed"}) => PrintT(<<"CASE", ToJson([r |-> R, n |-> N, sel |-> Sel, fail |-> Fail, failat |-> FailAt, script |-> hist])>>)
 =============================================================================
